@@ -120,6 +120,29 @@ def lane_table(a, spec):
                     {"lane": "table", "height": h})
             except Exception:
                 a.inc("wrong_id_refused")
+        # the same on a KNOWN parent, whatever height that parent reports (below the horizon nothing ties a block's reported
+        # height to its parent's: the checkpoint is the only defence, and it goes by the height the block reports)
+        if h > 0:
+            for hp in sorted({h - 1, max(0, h - 2), max(0, h - rng.choice([3, 7, 250, 499])), h + 1, rng.choice([1, 5, 77])}):
+                filler = cheap(dt, sg, hp, cs.current_chain_hash, 900 + hp % 50)
+                try:
+                    cs2 = cs.add_block_no_validation(filler)
+                except Exception:
+                    continue
+                a.inc("checkpoint_candidates_on_known_parent")
+                for o, should_pass in ((cheap(dt, sg, h, filler.hash(), 13), False), (cheap(dt, sg, h, filler.hash(), 14, cached=cp), True)):
+                    a.n += 1
+                    try:
+                        cons.validate_block_in_coinstate(o, cs2)
+                        ok = True
+                    except Exception as e:
+                        ok = False
+                    if ok and not should_pass:
+                        a.v("wrong-id-accepted-at-checkpoint", "height %d: a block with another id passes the checkpoint when its "
+                            "(known) parent reports height %d" % (h, hp), {"lane": "table", "height": h, "parent_height": hp})
+                    if not ok and should_pass:
+                        a.v("checkpoint-id-rejected", "height %d: the block carrying the checkpoint id is refused on a known parent "
+                            "reporting height %d" % (h, hp), {"lane": "table", "height": h, "parent_height": hp})
     if spec["part"] == 0:
         a.samples.append({"lane": "table", "height": heights[1], "checkpoint": rec_table[heights[1]]})
 
@@ -420,6 +443,7 @@ def finalize(m, tier):
                    ("horizon_at_horizon_height", c.get("horizon_at_horizon_height", 0), 20),
                    ("path_wrong_id_at_checkpoint", c.get("path_wrong_id_at_checkpoint", 0), 2),
                    ("wire_format_headers", c.get("wire_format_headers", 0), 327),
+                   ("checkpoint_candidates_on_known_parent", c.get("checkpoint_candidates_on_known_parent", 0), 1000),
                    ("path_ids_compared_with_network_format", c.get("path_ids_compared_with_network_format", 0), 1000)],
         "extra": {},
     }
